@@ -6,9 +6,9 @@ V = '/verif'
 WT, TAG = sys.argv[1], sys.argv[2]
 MAP = [('src/keypair/private_key', ['C07', 'C09']), ('src/keypair/public_key', ['C07']), ('src/keypair/extended', ['C08']), ('src/script/script_template', ['C19']),
        ('src/transaction/match_criteria', ['C19']), ('src/signature/', ['C06', 'C09']), ('src/transaction/mod.rs', ['C01', 'C04', 'C09']),
-       ('src/transaction/txin', ['C01', 'C09']), ('src/transaction/txout', ['C01', 'C09']), ('src/script/mod.rs', ['C02', 'C01', 'C09']),
+       ('src/transaction/txin', ['C01', 'C09', 'C15']), ('src/transaction/txout', ['C01', 'C09']), ('src/script/mod.rs', ['C02', 'C01', 'C09']),
        ('src/traits/varint', ['C01']), ('src/transaction/sighash', ['C03', 'C04', 'C10', 'C15']), ('src/interpreter/', ['C14', 'C16', 'C15']),
-       ('src/address/', ['C07']), ('src/ecdsa/', ['C05']), ('src/ecies/', ['C11', 'C09']), ('src/bsm/', ['C12']), ('src/hash/', ['C13']), ('src/aes', ['C20'])]
+       ('src/address/', ['C07']), ('src/ecdsa/', ['C05']), ('src/ecies/', ['C11', 'C09']), ('src/bsm/', ['C12']), ('src/hash/', ['C13']), ('src/encryption/', ['C20', 'C11']), ('src/kdf/', ['C13'])]
 OUT = '/tmp/vxout_' + TAG
 env = dict(os.environ, VX_REPO=WT, VX_OUT=OUT)
 res = []
